@@ -56,7 +56,7 @@ Over(fg, an, ad, bg) == \* the set of admissible composites (used to enumerate e
 \* ---- documented output format of make_readable per input spelling class (C06)
 OutFormat(spell) ==
   CASE spell \in {"hex6", "hex3", "hexnohash", "hexupper"} -> "hex"
-    [] spell \in {"rgbfn", "rgbpct", "rgbfnsub"} -> "rgbfn"          \* (...sub: the same string as an instance of a str subclass)
+    [] spell \in {"rgbfn", "rgbpct", "rgbfnsub", "rgbfnopen"} -> "rgbfn"          \* (...sub: the same string as an instance of a str subclass)
     [] spell \in {"hslfn", "hslodd", "hslfnsub"} -> "hslfn"
     [] spell \in {"tuple", "list", "tuplesub", "listsub", "fractuple"} -> "tuple"      \* subclasses (named tuples ...) are tuples / lists
     [] spell \in {"named", "rgbafn", "hslafn", "rgbatuple", "rgba3fn"} -> "hex"       \* rgba3fn: rgba() written without the alpha
